@@ -87,6 +87,81 @@ pub fn one(sink: &mut Sink, text: &str, items: &str, budget: &Option<Budget>, li
     sink.case(&format!("pump drain {} {} {} {}", b(stop), bt, alias_tok(&limits), items), &dump_tok(&d));
 }
 
+/// Expansion on the generator's tree: every alias replaced by a copy of the node most recently anchored
+/// under that name (anchors are registered at the START of their node, as the parser resolves names), every
+/// anchor mark removed. `Err(())` = some alias has no anchor of that name before it, or refers to a node
+/// that is still open (recursive reference): the document has no finite expansion and must be rejected.
+fn expand_gnode(n: &GNode, defs: &mut Vec<(String, Option<GNode>)>) -> Result<GNode, ()> {
+    match n {
+        GNode::Alias(a) => match defs.iter().rev().find(|(k, _)| k == a) {
+            Some((_, Some(v))) => Ok(v.clone()),
+            _ => Err(()),
+        },
+        GNode::Scalar { text, style, anchor, tag } => {
+            let e = GNode::Scalar { text: text.clone(), style: *style, anchor: None, tag: tag.clone() };
+            if let Some(a) = anchor { defs.push((a.clone(), Some(e.clone()))); }
+            Ok(e)
+        }
+        GNode::Seq { anchor, tag, items, flow } => {
+            let slot = anchor.as_ref().map(|a| { defs.push((a.clone(), None)); defs.len() - 1 });
+            let mut out = Vec::new();
+            for it in items { out.push(expand_gnode(it, defs)?); }
+            let e = GNode::Seq { anchor: None, tag: tag.clone(), items: out, flow: *flow };
+            if let Some(i) = slot { defs[i].1 = Some(e.clone()); }
+            Ok(e)
+        }
+        GNode::Map { anchor, tag, entries, flow } => {
+            let slot = anchor.as_ref().map(|a| { defs.push((a.clone(), None)); defs.len() - 1 });
+            let mut out = Vec::new();
+            for (k, v) in entries {
+                let k2 = expand_gnode(k, defs)?;
+                let v2 = expand_gnode(v, defs)?;
+                out.push((k2, v2));
+            }
+            let e = GNode::Map { anchor: None, tag: tag.clone(), entries: out, flow: *flow };
+            if let Some(i) = slot { defs[i].1 = Some(e.clone()); }
+            Ok(e)
+        }
+    }
+}
+
+/// implementation-only oracle for C02: value(aliased document) = value(expanded document) into the untyped
+/// target, and a document with an alias that has no completed anchor is an error.
+fn transparency_oracle(rng: &mut Rng, out: &mut Vec<serde_json::Value>, stats: &mut Sink) {
+    use crate::e2e::{run_single, Cfg};
+    use crate::tyseed::Ty;
+    let mut g = Gen::new(rng, GenCfg { max_depth: 4, merges: false, ..Default::default() });
+    let d = g.document();
+    let mut has_alias = false;
+    fn walk(n: &GNode, f: &mut bool) { match n { GNode::Alias(_) => *f = true, GNode::Seq { items, .. } => items.iter().for_each(|i| walk(i, f)), GNode::Map { entries, .. } => entries.iter().for_each(|(k, v)| { walk(k, f); walk(v, f) }), _ => {} } }
+    walk(&d, &mut has_alias);
+    let cfg = Cfg { dup: 2, legacy_octal: false, strict_bool: false, ignore_binary: false, no_schema: false, budget: None,
+                    limits: serde_saphyr::options::AliasLimits { max_total_replayed_events: usize::MAX, max_replay_stack_depth: 64, max_alias_expansions_per_anchor: usize::MAX } };
+    let text = render_doc(&d);
+    let got = run_single(&text, &Ty::Any, &cfg);
+    let mut tab = Vec::new();
+    match expand_gnode(&d, &mut tab) {
+        Ok(e) => {
+            let etext = render_doc(&e);
+            let want = run_single(&etext, &Ty::Any, &cfg);
+            stats.count(if has_alias { "oracle.expanded_with_alias" } else { "oracle.expanded_no_alias" });
+            // compare values; when both fail only the fact of failing is compared (error positions differ by construction)
+            let same = if got.starts_with("ok") || want.starts_with("ok") { got == want } else { true };
+            if !same {
+                out.push(serde_json::json!({"id": "C02-alias-not-transparent", "what": "value of the aliased document differs from the value of its expansion",
+                    "input": text, "expanded": etext, "observed": got, "expected": want}));
+            }
+        }
+        Err(()) => {
+            stats.count("oracle.unknown_alias_docs");
+            if got.starts_with("ok") {
+                out.push(serde_json::json!({"id": "C02-unknown-alias-accepted", "what": "alias without an earlier completed anchor did not produce an error",
+                    "input": text, "observed": got, "expected": "an error"}));
+            }
+        }
+    }
+}
+
 fn alias_heavy(rng: &mut Rng) -> String {
     // alias chains / bombs / aliases inside anchored containers
     match rng.below(5) {
@@ -165,6 +240,22 @@ fn generate(a: &Args) -> i32 {
         }
         one(&mut sink, text, &items, &Some(bd), AliasLimits::default(), stop);
     }
+    // implementation-only oracle stream
+    let mut fails: Vec<serde_json::Value> = Vec::new();
+    for _ in 0..(if a.thorough { 20000 } else { 1500 }) {
+        transparency_oracle(&mut rng, &mut fails, &mut sink);
+    }
+    // fixed witnesses of past findings
+    for (aliased, expanded) in [("&a \"\"", "\"\""), ("- &a ''\n- *a\n", "- ''\n- ''\n"), ("k: &a \"\"\nj: *a\n", "k: \"\"\nj: \"\"\n")] {
+        let cfg = crate::e2e::Cfg { dup: 2, legacy_octal: false, strict_bool: false, ignore_binary: false, no_schema: false, budget: None, limits: AliasLimits::default() };
+        let got = crate::e2e::run_single(aliased, &crate::tyseed::Ty::Any, &cfg);
+        let want = crate::e2e::run_single(expanded, &crate::tyseed::Ty::Any, &cfg);
+        if got != want {
+            fails.push(serde_json::json!({"id": "C02-anchored-empty-quoted", "what": "anchored empty quoted scalar changes value", "input": aliased, "observed": got, "expected": want}));
+        }
+    }
+    let lines: Vec<String> = fails.iter().map(|f| f.to_string()).collect();
+    std::fs::write(format!("{}/pump.oracle.jsonl", a.out), lines.join("\n")).unwrap();
     let nt = sink.stats.get("distinct_nontrivial").copied().unwrap_or(0);
     sink.finish(&a.out, "pump", serde_json::json!({
         "distinct_nontrivial": nt,
